@@ -1,0 +1,62 @@
+//go:build verif
+
+package pppoe
+
+import (
+	"context"
+	"errors"
+	"net"
+	"sync"
+
+	"go.uber.org/zap"
+)
+
+// VerifRxSocket is a VerifSocket whose recv delivers frames fed by the harness, so that the server's own
+// receiveLoop (one receive buffer, Ethernet parsing, dispatch) runs instead of being bypassed.
+type VerifRxSocket struct {
+	VerifSocket
+	in     chan []byte
+	closed chan struct{}
+	once   sync.Once
+}
+
+func (v *VerifRxSocket) recv(buf []byte) (int, error) {
+	select {
+	case f := <-v.in:
+		return copy(buf, f), nil
+	case <-v.closed:
+		return 0, errors.New("closed")
+	}
+}
+
+func (v *VerifRxSocket) close() error {
+	v.once.Do(func() { close(v.closed) })
+	return nil
+}
+
+// Feed delivers one Ethernet frame to receiveLoop and returns when the loop has finished with it
+// (it is back in recv: the empty second frame is only taken then, and is dropped as too short).
+func (v *VerifRxSocket) Feed(frame []byte) {
+	select {
+	case v.in <- frame:
+	case <-v.closed:
+		return
+	}
+	select {
+	case v.in <- nil:
+	case <-v.closed:
+	}
+}
+
+// NewServerRxForVerif builds a Server on an in-memory socket and starts its receiveLoop; stop it by cancelling
+// ctx and then calling Stop.
+func NewServerRxForVerif(ctx context.Context, cfg ServerConfig, logger *zap.Logger, serverMAC net.HardwareAddr) (*Server, *VerifRxSocket, error) {
+	s, err := newServerWithInterface(cfg, logger, &net.Interface{Name: cfg.Interface, HardwareAddr: serverMAC})
+	if err != nil {
+		return nil, nil, err
+	}
+	sock := &VerifRxSocket{in: make(chan []byte), closed: make(chan struct{})}
+	s.socket = sock
+	go s.receiveLoop(ctx)
+	return s, sock, nil
+}
